@@ -938,27 +938,24 @@ pub fn run_json(ops: &dyn Ops, plan: &JPlan, opts: RunOpts) -> Outcome {
                 _ => false,
             };
             let root_is_record = matches!(skip_wrappers(t), Node::Struct { .. });
-            if plan.reader == JReader::Flatten && root_is_record {
-                // serde's flatten machinery withholds every entry the type's `fields` list does not
-                // name, at every level it buffers (the top one): injected entries never arrive
-                for (p, order) in opened.iter_mut() {
-                    if p.len == 0 {
-                        order.retain(|d| matches!(d, Deliver::Orig(_)));
-                    }
-                }
-            }
+            // serde's flatten machinery withholds every top-level entry that the type's `fields`
+            // list does not name — but the simulator cannot see that list from here, and an injected
+            // key may happen to be one the type declares (an alias): nothing is demanded of such runs
+            let flatten_blind = plan.reader == JReader::Flatten
+                && root_is_record
+                && opened.iter().any(|(p, order)| p.len == 0 && order.iter().any(|d| matches!(d, Deliver::Unknown(_))));
             let facts = ReadFacts {
                 root: t,
                 opened: &opened,
                 err_fired,
                 err_before_all: err_before_all && root_is_record,
                 keyed: true,
-                weak_keys: false,
+                weak_keys: patched && shape.has_wrap(),
                 is_dec,
                 patched,
             };
             // a bare number cut short can still be a valid, different number: nothing to demand
-            if err_fired && !root_is_record {
+            if (err_fired && !root_is_record) || flatten_blind {
                 out.nontrivial = true;
             } else {
                 let any = judge_read(&mut out, &facts, &shape, &res, &expected, &leaf_paths);
